@@ -130,11 +130,14 @@ theorem inv_iter (d : Design σ) (n : Nat) (s : State σ) (h : Inv d s) : Inv d 
 theorem inv_clk (d : Design σ) (n : Nat) (s : State σ) (h : Inv d s) : Inv d (clk d n s) :=
   inv_iter d n _ (inv_propagateAll d s h)
 
-theorem inv_power_up (d : Design σ) (st0 : Nat → σ) : Inv d (init d st0) := by
+theorem inv_power_upC (d : Design σ) (st0 : Nat → σ) (cons : List (Nat × Int)) : Inv d (initC d st0 cons) := by
   apply inv_propagateAll
+  apply inv_foldl d (putW d) (fun s a => inv_putW d s a)
   constructor
   · intro w; exact Nat.two_pow_pos _
   · intro w hw; simp at hw
+
+theorem inv_power_up (d : Design σ) (st0 : Nat → σ) : Inv d (init d st0) := inv_power_upC d st0 []
 
 theorem inv_applyOp (d : Design σ) (s : State σ) (op : Op) (h : Inv d s) : Inv d (applyOp d s op) := by
   cases op with
@@ -149,6 +152,14 @@ theorem wire_values_fit (d : Design σ) (st0 : Nat → σ) (ops : List Op) :
   have : Inv d (run d st0 ops) := by
     unfold run
     exact inv_foldl d (applyOp d) (fun s op => inv_applyOp d s op) ops _ (inv_power_up d st0)
+  exact this.1
+
+/-- the same with construction-time puts (e.g. `Reg` putting an arbitrary — possibly oversized — reset value on q) -/
+theorem wire_values_fitC (d : Design σ) (st0 : Nat → σ) (cons : List (Nat × Int)) (ops : List Op) :
+    ∀ w, (runC d st0 cons ops).val w < 2 ^ d.width w := by
+  have : Inv d (runC d st0 cons ops) := by
+    unfold runC
+    exact inv_foldl d (applyOp d) (fun s op => inv_applyOp d s op) ops _ (inv_power_upC d st0 cons)
   exact this.1
 
 /-- … and also at every listener / waveform-capture point inside every cycle of every such run:
